@@ -104,6 +104,21 @@ Proof.
 Qed.
 Print Assumptions J_C10_refused_changes_nothing.
 
+(** C11 over joint histories: in every reachable state of the whole node the memory image of every
+    channel is its persisted image, and a restart of the signer (every channel re-read from the
+    store) leaves every channel exactly as it was. *)
+Theorem J_C11_restart_is_invisible :
+  forall warn prof nch mf mp (jops : list jop) (ch : N),
+    c01_filter warn -> Forall jwf jops -> jshort nch jops ->
+    let s := jrun warn prof nch mf mp (jinit warn prof) jops in
+    slot_durable (fst (jc s ch)) /\
+    fst (jc (fst (jstep warn prof nch mf mp s JRestart)) ch) = fst (jc s ch).
+Proof.
+  intros warn prof nch mf mp jops ch [W1 [W2 [W3 W4]]].
+  exact (JointRefusedProofs.joint_restart_invisible warn prof W1 W2 W3 W4 nch mf mp jops ch).
+Qed.
+Print Assumptions J_C11_restart_is_invisible.
+
 (** Non-vacuity: two channels, an approved payment of 100 000 sat validated on channel 0, the
     same payment signed on channel 1, then the revocation on channel 0: refused by the payment
     re-check (the counter stays), and after channel 1 dropped the HTLC again it goes through and
